@@ -40,8 +40,8 @@ type Analysis struct {
 	lazy                map[*ssa.Function]*lazyHelper
 	lazyInst            map[*ssa.Global][]lazyInst
 	LazyGuard           map[*ssa.Global]*ssa.Global // guard -> the map it guards through a lazy helper
-	genVarField         string // W2: the template data field holding the variable name
-	genWordsField       string // W2: … and the one holding the words
+	genVarField         string                      // W2: the template data field holding the variable name
+	genWordsField       string                      // W2: … and the one holding the words
 }
 
 // GateInfo is the outcome of a gate rule.
